@@ -101,6 +101,8 @@ def recurrence(db, ctx):
         o1 = {short_path(o[1]).split("::")[-1] for o in origins(db, g, a[2], depth=0) if o[0] == "call"}
         p0 = [o[2] for o in origins(db, g, a[1], depth=0) if o[0] == "param"]
         p1 = [o[2] for o in origins(db, g, a[2], depth=0) if o[0] == "param"]
+        o0 &= {"right_id", "left_id"}
+        o1 &= {"right_id", "left_id"}
         if o0 or o1:
             ok = "right_id" in o0 and "left_id" not in o0 and "left_id" in o1 and "right_id" not in o1
             how = "arg0 from %s, arg1 from %s" % (sorted(o0), sorted(o1))
